@@ -43,9 +43,18 @@ type faultSpec struct {
 	// By "call": At counts every Exec/Query of the attempt. By "mig": At counts only the
 	// migration statements (scripts and version writes) the attempt executes, so a fault in a
 	// restart lands on the statements that are re-executed.
-	By   string `json:"by"`
-	At   int    `json:"at"`
-	Mode string `json:"mode"` // before | after
+	//
+	// By "stmt": a fault sequence on one statement. The statement is the one call At of attempt
+	// Run issues; from then on *every attempt qryn makes at that same statement text* — a
+	// re-issue inside the same run (retry logic) or the re-execution by a restart — fails
+	// again: the first K attempts (K = 0 counts as 1), or, when Persist > 0, every attempt
+	// made during the attempts Run .. Run+Persist-1 (persistent failure for whole runs; it
+	// succeeds in a later run).
+	By      string `json:"by"`
+	At      int    `json:"at"`
+	Mode    string `json:"mode"` // before | after
+	K       int    `json:"k,omitempty"`
+	Persist int    `json:"persist,omitempty"`
 }
 
 type updCase struct {
@@ -387,44 +396,86 @@ func predUpdate(c updCase, o *evid.Obs) error {
 	var fired []*fakech.CtrlCall
 	attempt := 0
 	migSeen := 0
+	type seqState struct {
+		target string // canonical text of the addressed statement, "" until call At was seen
+		query  bool
+		failed int
+	}
+	seq := make([]seqState, len(c.Faults))
+	mode := func(f faultSpec) fakech.CtrlFaultMode {
+		if f.Mode == "after" {
+			return fakech.CtrlFailAfter
+		}
+		return fakech.CtrlFailBefore
+	}
+	disarmed := false
 	conn.Decide = func(cl *fakech.CtrlCall) fakech.CtrlFaultMode {
+		if disarmed {
+			return fakech.CtrlNoFault
+		}
 		mig := !cl.Query && !isPrelude(cl)
 		defer func() {
 			if mig {
 				migSeen++
 			}
 		}()
-		for _, f := range c.Faults {
+		for i, f := range c.Faults {
+			if f.By == "stmt" {
+				st := &seq[i]
+				if st.target == "" {
+					if f.Run != attempt || f.At != cl.Index {
+						continue
+					}
+					st.target, st.query = fakech.CtrlCanon(cl.SQL), cl.Query
+				} else if st.query != cl.Query || st.target != fakech.CtrlCanon(cl.SQL) {
+					continue
+				}
+				k := f.K
+				if k < 1 {
+					k = 1
+				}
+				if (f.Persist > 0 && attempt < f.Run+f.Persist) || (f.Persist <= 0 && st.failed < k) {
+					st.failed++
+					fired = append(fired, cl)
+					return mode(f)
+				}
+				continue
+			}
 			if f.Run != attempt {
 				continue
 			}
 			hit := (f.By == "mig" && mig && f.At == migSeen) || (f.By != "mig" && f.At == cl.Index)
 			if hit {
 				fired = append(fired, cl)
-				if f.Mode == "after" {
-					return fakech.CtrlFailAfter
-				}
-				return fakech.CtrlFailBefore
+				return mode(f)
 			}
 		}
 		return fakech.CtrlNoFault
 	}
 
-	// restarts until success; after the last armed fault at most two more attempts
+	// restarts until success; after the last attempt a fault can still fire in, at most two more
 	maxRuns := maxFaultRun + 3
+	for _, f := range c.Faults {
+		if f.By == "stmt" {
+			maxRuns += max(f.K, f.Persist, 1)
+		}
+	}
 	completed := false
 	var lastErr error
 	attempts := 0
 	for attempt = 0; attempt < maxRuns; attempt++ {
 		attempts++
-		conn.BeginRun()
+		run := conn.BeginRun()
 		migSeen = 0
 		nFired := len(fired)
 		lastErr = runUpdate(conn, c.Cfg)
 		if lastErr == nil {
 			if len(fired) > nFired {
-				// the injected error was swallowed: the run claims success; the state checks below decide
-				o.Tag("fault-swallowed")
+				// an injected error did not surface: legitimate only if the statement was re-issued and succeeded
+				o.Tag("success-after-fault-in-same-run")
+				if verr := neverSucceeded(conn.RunCalls(run)); verr != nil {
+					return fmt.Errorf("%v [faults: %s]", verr, describe(fired, ref))
+				}
 			}
 			completed = true
 			break
@@ -447,7 +498,30 @@ func predUpdate(c updCase, o *evid.Obs) error {
 		}
 	}
 	_ = lastErr
-	o.Tag(fmt.Sprintf("attempts:%d", attempts), fmt.Sprintf("faults-fired:%d", len(fired)))
+	o.Tag(fmt.Sprintf("attempts:%d", min(attempts, 8)), fmt.Sprintf("faults-fired:%d", min(len(fired), 6)))
+	for i, f := range c.Faults {
+		if f.By != "stmt" {
+			continue
+		}
+		switch {
+		case seq[i].target == "":
+			o.Tag("seq:not-reached")
+		case f.Persist > 0:
+			o.Tag(fmt.Sprintf("seq:persist-%d-runs", min(f.Persist, 3)))
+		default:
+			o.Tag(fmt.Sprintf("seq:k=%d", max(f.K, 1)))
+		}
+	}
+	perRun := map[string]int{}
+	for _, f := range fired {
+		perRun[fmt.Sprintf("%d/%s", f.Run, fakech.CtrlCanon(f.SQL))]++
+	}
+	for _, n := range perRun {
+		if n > 1 {
+			o.Tag("seq:re-issued-in-same-run")
+			break
+		}
+	}
 	for _, f := range fired {
 		o.Tag("fault:" + string(f.Fault) + "@" + stmtClass(f))
 		if !f.Query && (f.Stmt.NonIdempotent() || isVerWrite(f)) {
@@ -479,8 +553,12 @@ func predUpdate(c updCase, o *evid.Obs) error {
 				}
 			}
 		}
+		lastFaulted := 0
+		if len(fired) > 0 {
+			lastFaulted = fired[len(fired)-1].Run
+		}
 		return fmt.Errorf("initialisation cannot complete: after %d fault(s) %s, %d further restart(s) all fail; the last one at %s: %s => %s",
-			len(fired), describe(fired, ref), attempts-1-maxFaultRun, where, short(last.SQL), last.Err)
+			len(fired), describe(fired, ref), attempts-lastFaulted, where, short(last.SQL), last.Err)
 	}
 
 	if err := checkHistory(conn.Calls(), ref); err != nil {
@@ -503,7 +581,7 @@ func predUpdate(c updCase, o *evid.Obs) error {
 
 	// an up-to-date database: one more initialisation executes no migration script
 	extra := conn.BeginRun()
-	attempt = -1 // no fault armed
+	disarmed = true // no fault armed
 	if err := runUpdate(conn, c.Cfg); err != nil {
 		return fmt.Errorf("initialisation of the up-to-date database fails: %v (%s)", err, lastSQL(conn))
 	}
@@ -513,6 +591,39 @@ func predUpdate(c updCase, o *evid.Obs) error {
 		}
 		if !isPrelude(cl) || cl.Changed {
 			return fmt.Errorf("initialisation of the up-to-date database executed %s", short(cl.SQL))
+		}
+	}
+	return nil
+}
+
+// neverSucceeded: a run that reports success must not contain a statement all of whose
+// attempts in that run failed before taking effect.
+func neverSucceeded(calls []*fakech.CtrlCall) error {
+	type rec struct {
+		tries, ok int
+		first     *fakech.CtrlCall
+	}
+	seen := map[string]*rec{}
+	var order []string
+	for _, c := range calls {
+		if c.Query {
+			continue // a query has no effect; what the code does without its answer is judged by the state checks
+		}
+		k := fakech.CtrlCanon(c.SQL)
+		r := seen[k]
+		if r == nil {
+			r = &rec{first: c}
+			seen[k] = r
+			order = append(order, k)
+		}
+		r.tries++
+		if c.Applied {
+			r.ok++
+		}
+	}
+	for _, k := range order {
+		if r := seen[k]; r.ok == 0 {
+			return fmt.Errorf("the run reports success although %d attempt(s) at this statement all failed and it never took effect in the run: %s => %s", r.tries, short(r.first.SQL), r.first.Err)
 		}
 	}
 	return nil
@@ -660,6 +771,30 @@ func addSingle(r *evid.Run) {
 	evid.Add(r, evid.Prop[updCase]{Name: "single-fault", Quick: 0, Thorough: 0, Enumerate: enumerateSingle, Pred: predUpdate})
 }
 
+// ---- enumeration: one statement × fault sequence (k = 1..5 consecutive attempts, or persistent for a whole run) ----
+
+func enumerateSeq(yield func(updCase)) {
+	for _, cfg := range enumCfgs {
+		ref := getReference(cfg)
+		n := len(ref.calls)
+		if ref.err != nil {
+			n = 1
+		}
+		for i := 0; i < n; i++ {
+			for _, m := range []string{"before", "after"} {
+				for k := 1; k <= 5; k++ {
+					yield(updCase{Cfg: cfg, Faults: []faultSpec{{Run: 0, By: "stmt", At: i, Mode: m, K: k}}})
+				}
+				yield(updCase{Cfg: cfg, Faults: []faultSpec{{Run: 0, By: "stmt", At: i, Mode: m, Persist: 1}}})
+			}
+		}
+	}
+}
+
+func addSeq(r *evid.Run) {
+	evid.Add(r, evid.Prop[updCase]{Name: "stmt-fault-sequence", Quick: 500, Thorough: 0, Enumerate: enumerateSeq, Pred: predUpdate})
+}
+
 // ---- generated plans: 1–3 faults over successive attempts, generated configuration ---------------
 
 func genMulti(rt *rapid.T) updCase {
@@ -693,6 +828,13 @@ func genMulti(rt *rapid.T) updCase {
 			} else {
 				f.At = rapid.IntRange(0, n-1).Draw(rt, "at")
 			}
+			seqFault(rt, &f)
+		} else if rapid.IntRange(0, 2).Draw(rt, "seq-restart") == 0 {
+			// a fault sequence on a statement of a restart: calls of a restart are few (three per
+			// finished stream, then the resumed scripts)
+			f.By = "call"
+			f.At = rapid.IntRange(0, 30).Draw(rt, "at")
+			seqFault(rt, &f)
 		} else {
 			// a restart skips what is recorded: count migration statements so the fault lands on
 			// the re-executed ones (0 = the very statement that is repeated first)
@@ -706,6 +848,18 @@ func genMulti(rt *rapid.T) updCase {
 		}
 	}
 	return c
+}
+
+// seqFault turns, half of the time, a single-shot fault into a fault sequence on its statement.
+func seqFault(rt *rapid.T, f *faultSpec) {
+	switch rapid.IntRange(0, 3).Draw(rt, "seqkind") {
+	case 0:
+		f.By = "stmt"
+		f.K = rapid.IntRange(1, 5).Draw(rt, "k")
+	case 1:
+		f.By = "stmt"
+		f.Persist = rapid.IntRange(1, 2).Draw(rt, "persist")
+	}
 }
 
 func addMulti(r *evid.Run) {
